@@ -66,9 +66,11 @@ ASSUMPTIONS = {p: [
     "every traded symbol has its precision configured; initial balances and loan amounts are on the grid; an account "
     "may be opened with a debt (negative initial balance), for which 'borrowed' is compared with opening debt + open "
     "principal (the literal clause is known finding opening_debt_has_no_loan)",
-    "the strategy talks to the exchange only through the public async API; order events are subscribed before the run",
-    "scheduled jobs are placed between bar times (a job at exactly a bar time acts before that bar is matched, which "
-    "the statement does not cover)",
+    "the strategy talks to the exchange only through the public async API; order events are subscribed before the run "
+    "(except in the polling scenarios, where nobody subscribes and only polled state is judged)",
+    "scheduled jobs that trade are placed between bar times (a job at exactly a bar time acts before that bar is "
+    "matched, which the statement does not cover); jobs that only borrow may run at bar times, and handlers may "
+    "schedule cancelling jobs for 'now' or the past",
 ] for p in PROPS}
 ASSUMPTIONS["C06"].append("degenerate reservations whose rounded notional is zero at quote precision are don't-care")
 ASSUMPTIONS["C10"].append("equity = sum over symbols of max(0, available+hold-borrowed) valued at the last close "
